@@ -372,6 +372,7 @@ theorem react_proxOk (w : Who) (r : Reaction) (s : St) (h : ProxOk s) :
           rcases hc with hc | rfl
           · exact Nat.lt_succ_of_lt (hlt c hc)
           · exact Nat.lt_succ_self _⟩), fun e he => he⟩
+  | raises => cases w <;> exact ⟨h, RegMono.refl s⟩
   | newProxy =>
     obtain ⟨h1, h2⟩ := proxOk_makeProxyCbs 0 true [⟨s.nextCb, .nothing⟩] (s.nextCb + 1) s h (Nat.le_succ _)
       (by simp) (by simp)
